@@ -67,6 +67,18 @@ func (c *FnCtx) special(frame *Frame, st *State, in ssa.Instruction, call *ssa.C
 			}
 			if !st.lockedOnce {
 				st.lockedOnce = true
+				if !frame.inlined && frame.contract != nil {
+					env := c.entryEnv(frame, st)
+					for _, r := range frame.contract.RequiresLocked {
+						t, err := c.evalBool(env, r.Expr)
+						if err != nil {
+							c.errs = append(c.errs, fmt.Sprintf("%s:%d: requires_locked %s: %v", r.File, r.Line, r.Label, err))
+							continue
+						}
+						st.assume(t)
+						c.note("rely: requires_locked " + r.Label + " (" + r.Text + ") is assumed to still hold when the lock is acquired")
+					}
+				}
 				st.oldHeap = copyHeap(st.heap)
 				st.oldAlloc = st.alloc
 			}
@@ -170,6 +182,11 @@ func (c *FnCtx) havocGuarded(st *State, li *LockInv, obj string) {
 			}
 			continue
 		}
+		contentsOnly := false
+		if strings.HasPrefix(g, "contents ") {
+			contentsOnly = true
+			g = strings.TrimSpace(strings.TrimPrefix(g, "contents "))
+		}
 		ft, ghost := c.fieldType(o.Type(), g)
 		if ft == nil {
 			c.errs = append(c.errs, "lockinv guards: unknown field "+g)
@@ -181,10 +198,15 @@ func (c *FnCtx) havocGuarded(st *State, li *LockInv, obj string) {
 		}
 		var fv Val
 		a := &Addr{Space: "F", Key: key, Idx: []string{obj}, Path: path, T: ft}
-		nv := c.freshVal(st, ft, "locked."+g)
-		c.assumeAllocated(st, nv)
-		c.store(st, a, nv)
-		fv = nv
+		if contentsOnly {
+			// the field itself is immutable after construction; only what it refers to is shared state
+			fv = c.load(st, a)
+		} else {
+			nv := c.freshVal(st, ft, "locked."+g)
+			c.assumeAllocated(st, nv)
+			c.store(st, a, nv)
+			fv = nv
+		}
 		// contents of containers held in the field
 		switch t := ft.Underlying().(type) {
 		case *types.Map:
@@ -219,6 +241,11 @@ func (c *FnCtx) havocGuardedByCall(st *State, call *ssa.CallCommon) {
 		if strings.HasPrefix(g, "type ") {
 			continue
 		}
+		contentsOnly := false
+		if strings.HasPrefix(g, "contents ") {
+			contentsOnly = true
+			g = strings.TrimSpace(strings.TrimPrefix(g, "contents "))
+		}
 		ft, ghost := c.fieldType(stt, g)
 		if ft == nil {
 			continue
@@ -227,8 +254,10 @@ func (c *FnCtx) havocGuardedByCall(st *State, call *ssa.CallCommon) {
 		if ghost {
 			path = "$" + g
 		}
-		for _, lf := range leavesOf(ft) {
-			c.heapHavoc(st, arrName("F", key, joinPath(path, lf.Path), lf.Sort))
+		if !contentsOnly {
+			for _, lf := range leavesOf(ft) {
+				c.heapHavoc(st, arrName("F", key, joinPath(path, lf.Path), lf.Sort))
+			}
 		}
 		if mt, ok := ft.Underlying().(*types.Map); ok {
 			mk := mapKeyOf(ft)
@@ -255,6 +284,9 @@ func (c *FnCtx) checkGuardedWrite(st *State, a *Addr, pos token.Pos) {
 			root = root[:i]
 		}
 		for _, g := range li.Guards {
+			if strings.HasPrefix(g, "contents ") && strings.TrimSpace(strings.TrimPrefix(g, "contents ")) == root {
+				c.addOblig(st, "lockdiscipline:write-to-immutable:"+root, "lockdiscipline", "false", "field "+root+" is declared immutable after construction (guards contents)", pos)
+			}
 			if g == root {
 				mkey := a.Key + "." + li.Mutex + "@" + a.Idx[0]
 				heldAny := false
